@@ -68,6 +68,15 @@ def run(res, args):
         ci, co = rng.choice(caps), rng.choice(caps)
         d = rng.choice([0, 0, 0, 1, 2, 3]) if len(s) < 400 else 0
         cases.append("stream %d debug %s %d %d %d" % (framing.T0, gen.hx(s), ci, co, d))
+    # the producer pauses once for 250 ms: after the first byte of a run of other data, in the middle of such a run, right
+    # after a 0xD3, inside a leader, inside a payload (what is delivered may not depend on when the bytes arrive)
+    for k in range(10 if res.tier == "quick" else 60):
+        f1, f2 = gen.rand_frame(rng, small=True), gen.rand_frame(rng, small=True)
+        junk = b"$GPGGA,1,2*33\r\n"
+        s = f1 + junk + f2 + b"\n"
+        at = [len(f1) + 1, len(f1) + 7, len(f1) + len(junk) + 1, len(f1) + len(junk) + 3, len(f1) + len(junk) + 8, 1, len(s) - 1, len(f1)][k % 8]
+        streams.append((s, "producer-stall"))
+        cases.append("stream %d debug %s %d %d 0 stall:%d:250" % (framing.T0, gen.hx(s), rng.choice(caps), rng.choice(caps), at))
     impl, model = framing.run_both(res, "stream", cases, timeout=3000)
     if impl:
         for (s, tag), c, line in zip(streams, cases, impl):
